@@ -254,6 +254,19 @@ def t1(ck: Check) -> None:
                 if isinstance(n_, ast.Assign) and isinstance(n_.targets[0], ast.Tuple) and len(n_.targets[0].elts) == 2 \
                         and isinstance(n_.value, ast.Call) and callee_name(n_.value) == "place_to_variable":
                     posname = text(n_.targets[0].elts[1])
+            # locals of the decoder that hold a constant under this call's arguments (`neg = 0 if pos == 1 else 1`)
+            env = dict(env)
+            one_def: dict[str, list] = {}
+            for n_ in own_walk(node):
+                if isinstance(n_, ast.Name) and isinstance(n_.ctx, ast.Store):
+                    one_def.setdefault(n_.id, []).append(n_)
+            for n_ in sorted((x for x in own_walk(node) if isinstance(x, ast.Assign) and len(x.targets) == 1
+                              and isinstance(x.targets[0], ast.Name)), key=lambda x: x.lineno):
+                if len(one_def.get(n_.targets[0].id, [])) == 1 and n_.targets[0].id not in env:
+                    try:
+                        env[n_.targets[0].id] = ev(n_.value, dict(env))
+                    except Unknown:
+                        pass
             for s_ in stores:
                 tbl = {}
                 for pol in (True, False):
